@@ -50,7 +50,7 @@ def parse(stmt, line):
             l, r = iv.split(":")
             out.append(((Fraction(l), Fraction(r)), pval(v)))
         return ("pairs", out)
-    if cmd in ("limit", "sample", "ecdf", "perc", "frac", "quant", "hist", "stat", "vir", "cov"):
+    if cmd in ("limit", "sample", "ecdf", "ecdfs", "perc", "frac", "quant", "hist", "stat", "vir", "cov"):
         return ("vals", [pval(t) for t in line.split()])
     if cmd == "q":
         return ("vals", [pval(t) for t in line.split()])
